@@ -37,16 +37,23 @@ def _R(env, r):
     return R_zxz(env, r["phi"], r["theta"], r["psi"])
 
 
-def _setup(env, n_sym=1):
+INDEXES = {"default": None, "gaps": [5, 2, 9, 7], "reversed": [3, 2, 1, 0]}
+
+
+def _setup(env, n_sym=1, index="default"):
+    """`index`: row labels of the frame.  Lists with gaps / unsorted labels are reachable states
+    (remove_feature, adapt_to_trimming, get_motl_subset(reset_index=False) do not reset the index)."""
     cm = env.module("cryomotl")
     rows = [_sym_particle(env, "p%d" % i, tomo=1.0, sub=float(i * 2 + 1)) for i in range(n_sym)] + [_second()]
     m = mk_motl(env, cm, rows)
+    if INDEXES[index] is not None:
+        m.df.index = INDEXES[index][: len(rows)]
     before = [row(m.df, i) for i in range(len(rows))]
     return cm, m, before
 
 
-def h_update_coordinates(env, n_sym=1):
-    cm, m, before = _setup(env, n_sym)
+def h_update_coordinates(env, n_sym=1, index="default"):
+    cm, m, before = _setup(env, n_sym, index)
     m.update_coordinates()
     env.check("row_count", env.true() if m.df.shape[0] == len(before) else env.not_(env.true()))
     for i, b in enumerate(before):
@@ -58,8 +65,8 @@ def h_update_coordinates(env, n_sym=1):
         env.check("others_unchanged_%d" % i, others_unchanged(env, b, a, {"x", "y", "z", "shift_x", "shift_y", "shift_z"}))
 
 
-def h_scale_coordinates(env, n_sym=1):
-    cm, m, before = _setup(env, n_sym)
+def h_scale_coordinates(env, n_sym=1, index="default"):
+    cm, m, before = _setup(env, n_sym, index)
     f = env.real("factor", 0.001, 1000)
     m.scale_coordinates(f)
     for i, b in enumerate(before):
@@ -68,8 +75,8 @@ def h_scale_coordinates(env, n_sym=1):
         env.check("others_unchanged_%d" % i, others_unchanged(env, b, a, {"x", "y", "z", "shift_x", "shift_y", "shift_z"}))
 
 
-def h_shift_positions(env, n_sym=1, inplace=True, twice=False):
-    cm, m, before = _setup(env, n_sym)
+def h_shift_positions(env, n_sym=1, inplace=True, twice=False, index="default"):
+    cm, m, before = _setup(env, n_sym, index)
     s = [env.real("s%d" % k, -100, 100) for k in range(3)]
     stot = s
     if env.mode == "sym":
@@ -95,8 +102,8 @@ def h_shift_positions(env, n_sym=1, inplace=True, twice=False):
             env.check("original_untouched_%d" % i, others_unchanged(env, b, row(m.df, i), set()))
 
 
-def h_apply_rotation(env, n_sym=1, twice=False):
-    cm, m, before = _setup(env, n_sym)
+def h_apply_rotation(env, n_sym=1, twice=False, index="default"):
+    cm, m, before = _setup(env, n_sym, index)
     q = [env.angle("q%d" % k) for k in range(3)]
     Q = cm.rot.from_euler("zxz", objcol(q) if env.mode == "sym" else np.array(q), degrees=True)
     Qm = R_zxz(env, *[q[0], q[1], q[2]])
@@ -112,12 +119,14 @@ def h_apply_rotation(env, n_sym=1, twice=False):
         env.check("others_unchanged_%d" % i, others_unchanged(env, b, a, {"phi", "theta", "psi"}))
 
 
-def _dims(env, kind, d1, d2):
+def _dims(env, kind, d1, d2, order="sorted"):
     if kind == "1x3":
         vals = [[100.0, 120.0, d1]]
         cols = None
     else:
         vals = [[1.0, 100.0, 120.0, d1], [2.0, 90.0, 80.0, d2]]
+        if order == "unsorted":
+            vals = [[5.0, 50.0, 60.0, 70.0], vals[1], [0.0, 11.0, 12.0, 13.0], vals[0]]
     if kind == "1x3_list":
         return [100.0, 120.0, d1]
     if env.mode == "sym":
@@ -130,17 +139,19 @@ def _dims(env, kind, d1, d2):
     return a if kind != "Nx4_df" else pd.DataFrame(a)
 
 
-def h_flip_handedness(env, kind="Nx4", twice=False, single_tomo=False):
+def h_flip_handedness(env, kind="Nx4", twice=False, single_tomo=False, order="sorted", index="default"):
     cm = env.module("cryomotl")
     rows = [_sym_particle(env, "p0", tomo=1.0, sub=1.0), _second(1.0 if single_tomo else 2.0)]
     m = mk_motl(env, cm, rows)
+    if INDEXES[index] is not None:
+        m.df.index = INDEXES[index][:2]
     before = [row(m.df, i) for i in range(2)]
     d1 = env.real("dimz1", 1, 10000)
     d2 = env.real("dimz2", 1, 10000)
-    dims = _dims(env, kind, d1, d2)
+    dims = _dims(env, kind, d1, d2, order)
     m.flip_handedness(dims)
     if twice:
-        m.flip_handedness(_dims(env, kind, d1, d2))
+        m.flip_handedness(_dims(env, kind, d1, d2, order))
     dz = [d1, d1 if (kind.startswith("1x3")) else d2]
     S = [[1.0, 0.0, 0.0], [0.0, 1.0, 0.0], [0.0, 0.0, -1.0]]
     for i, b in enumerate(before):
@@ -185,6 +196,12 @@ def jobs(tier, seed):
         ("h_flip_handedness", {"kind": "1x3"}),
         ("h_flip_handedness", {"kind": "1x3_list", "single_tomo": True}),
         ("h_flip_handedness", {"kind": "Nx4", "twice": True}),
+        ("h_flip_handedness", {"kind": "Nx4", "order": "unsorted", "index": "gaps"}),
+        ("h_update_coordinates", {"n_sym": n, "index": "gaps"}),
+        ("h_scale_coordinates", {"n_sym": n, "index": "reversed"}),
+        ("h_shift_positions", {"n_sym": n, "inplace": True, "index": "gaps"}),
+        ("h_apply_rotation", {"n_sym": n, "index": "gaps"}),
+        ("h_apply_rotation", {"n_sym": n, "twice": True, "index": "reversed"}),
     ]
     if tier == "thorough":
         j += [("h_update_coordinates", {"n_sym": 2}), ("h_scale_coordinates", {"n_sym": 2}),
